@@ -16,13 +16,17 @@
     satisfies the completed definitions of the other program's private predicates without being
     a stable model of that program. Composes C04 (`completion_tight`), C07 (classic portfolio),
     C19 (eq-break, decompositions), the renaming of clashing private predicates and the assembly.
-  Not proved: specifications (formulas instead of a program), placeholders, proof outlines, and
-  the uniqueness of the private extents (which turns "not a stable model of the other program"
-  into "the other program cannot produce the public part").
+  * `cannot_produce_public_part`: for the program side of such a task with simplification off, an
+    interpretation that satisfies the private definitions is *not* a stable model of the program
+    iff *no* stable model of the program has the same extents of the non-private predicates - the
+    wording of the property. Rests on the uniqueness of the private extents without private
+    recursion (`private_extents_unique`).
+  Not proved: specifications (formulas instead of a program), placeholders, proof outlines.
 -/
 import AnthemModel.Model.External
 import AnthemModel.Props.C19
 import AnthemModel.Proofs.ExternalSem
+import AnthemModel.Proofs.PrivateUnique
 namespace Anthem.C02
 open Asp
 
@@ -50,6 +54,45 @@ theorem external_refutes_programs (t : ExternalTask) (PL : Program) (hspec : t.s
               (∀ a ∈ leftSide t ΓL, a.role = .assumption → sat J a.formula ρ) ∧
               ¬ Stable PL t.userGuide.inputs (restrictTo (ext PL.preds t.userGuide.inputs) J.pred) J.fc)))) :=
   Anthem.external_refutes_programs t PL hspec hph hpo hbyp fuel ps h
+
+/-- **"…whose public part the other side cannot produce."** The last clause of
+    `external_refutes_programs` for the program side, simplification off: given the private
+    definitions (third clause), not being a stable model of the program is the same as no stable
+    model of the program sharing the extents of the non-private predicates. -/
+theorem cannot_produce_public_part (t : ExternalTask) (fuel : Nat) (ΓR : Theory) (hsimp : t.simplify = false)
+    (hbyp : t.bypassTightness = false) (hpre : precheck t = none)
+    (hR : theoryTranslate t [] fuel t.program = .ok ΓR) (J : Interp) (ρ : Asg)
+    (hpriv : ∀ a ∈ rightSide t ΓR, a.role = .assumption → sat J a.formula ρ) :
+    (¬ Stable t.program t.userGuide.inputs (restrictTo (ext t.program.preds t.userGuide.inputs)
+        (renamedInterp (t.specPrivate.filter (· ∈ t.progPrivate)) J.pred)) J.fc) ↔
+      ¬ ∃ T' : PredI, Stable t.program t.userGuide.inputs T' J.fc ∧
+        ∀ (q : String) (ds : List Dom), (⟨q, ds.length⟩ : Pred) ∉ t.progPrivate →
+          (T' q ds ↔ restrictTo (ext t.program.preds t.userGuide.inputs)
+            (renamedInterp (t.specPrivate.filter (· ∈ t.progPrivate)) J.pred) q ds) := by
+  obtain ⟨hΓ, hdefs⟩ := rightSide_private_defs t fuel ΓR hsimp hR J ρ hpriv
+  have hp : globalsPanic t.program = false := (theoryTranslate_ok t fuel t.program ΓR hR).1
+  -- applicability facts from the checks
+  have hperr : programError t t.program t.progPrivate = none := by
+    cases hP : programError t t.program t.progPrivate with
+    | none => rfl
+    | some e =>
+      exfalso
+      unfold precheck at hpre
+      simp only [hP] at hpre
+      split at hpre
+      · cases hpre
+      · split at hpre <;> cases hpre
+  obtain ⟨htR, hrec, hinsR⟩ := C11.programError_none hperr
+  have htR' : isTight t.program = true := htR.resolve_right (by simp [hbyp])
+  have hsub : ∀ q ∈ t.progPrivate, q ∈ t.program.preds ∧ q ∉ t.userGuide.inputs := by
+    intro q hq
+    unfold ExternalTask.progPrivate at hq
+    simp only [List.mem_filter, decide_eq_true_eq] at hq
+    refine ⟨hq.1, fun hin => hq.2 ?_⟩
+    unfold UserGuide.publicPreds
+    exact mem_ext.mpr (Or.inl hin)
+  exact not_congr (stable_iff_some_stable_same_public t.program t.userGuide.inputs t.progPrivate htR' hp hinsR hrec hsub
+    ΓR hΓ _ J.fc ρ hdefs)
 
 /-- number of emitted problems for a task (0 when refused) -/
 def emitted (t : ExternalTask) (fuel : Nat) : Nat :=
